@@ -54,6 +54,8 @@ def run_check(prop_id, tier, seed, replay=None):
     if prop_id not in REGISTRY:
         print("unknown property", prop_id)
         return 2
+    if replay:
+        return replay_file(replay)
     rep = cm.Report(prop_id, tier, seed)
     os.makedirs(cm.WORK, exist_ok=True)
     coq_ok, coq_out = cm.build_coq()
@@ -72,6 +74,15 @@ def run_check(prop_id, tier, seed, replay=None):
         cov, assumptions = REGISTRY[prop_id](rep, tier, seed, wd, replay)
     finally:
         shutil.rmtree(wd, ignore_errors=True)
+    if tier == "thorough" and not broken:
+        # independent re-check of the compiled proofs and their whole dependency closure
+        p = cm.run(["timeout", "3000", "coqchk", "-silent", "-o", "-Q", "theories", "Mcap", "-Q", "properties", "McapProps", "McapProps.%s" % prop_id],
+                   cwd=cm.COQ, check=False)
+        out = p.stdout.decode(errors="replace")
+        m = re.search(r"\* Axioms:(.*?)\n\s*\n", out, re.S)
+        pinfo["coqchk"] = {"exit": p.returncode, "axioms": (m.group(1).strip() if m else "?")}
+        if p.returncode != 0 or not m or m.group(1).strip() != "<none>":
+            broken = "coqchk does not accept properties/%s.vo without axioms: %s" % (prop_id, out[-600:])
     if broken:
         concrete = any(v["failing_input"] for v in rep.violations)
         rep.add_violation("proof", broken, ["# theorem/correspondence that no longer checks:", "# " + broken.replace("\n", "\n# ")],
@@ -121,11 +132,54 @@ def writer_corr(rep, cases, wd, keys, oracle_props, tag="w", extra=None):
     return go, model, distinct, hist, n_disagree
 
 
+def incoq_writer_sample(rep, cases, go, wd, k=30):
+    """Thorough tier: re-evaluate a sample of writer cases INSIDE Coq (vm_compute on the same Gallina
+    definitions the theorems are about) and compare with the bytes the real writer produced; this takes
+    extraction and the OCaml driver out of the trusted base for the sample."""
+    import gen_c17
+    sample = []
+    for c in cases:
+        g = go.get(c["id"])
+        if g and g["new"] == "ok" and all(x == "ok" for x in g["calls"]) and (not c["o"]["comp"] or not c["o"]["chunked"]) and len(b"".join(g["writes"])) < 3000:
+            sample.append((c, b"".join(g["writes"])))
+        if len(sample) >= k:
+            break
+    if not sample:
+        return 0
+    B = lambda x: "true" if x else "false"
+    lines = ["From Coq Require Import List NArith ZArith Bool String.", "From Coq.Strings Require Import Byte.",
+             "From Mcap Require Import Bytes GoSem Records Writer Lexer C17Support.", "Import ListNotations.", "Open Scope N_scope.", "Open Scope string_scope.",
+             "Definition weq (o : wopts) (lib : bytes) (cs : list wcall) (e : bytes) : bool := bytes_eqb (file_of (W o lib (fun _ x => x) None cs)) e."]
+    names = []
+    for i, (c, data) in enumerate(sample):
+        o = c["o"]
+        ot = ("{| o_crc := %s; o_chunked := %s; o_chunksize := (%d)%%Z; o_comp := %s; o_custom := %s; o_skip_mi := %s; o_skip_stats := %s; o_skip_rsh := %s; o_skip_rch := %s; "
+              "o_skip_ai := %s; o_skip_mdi := %s; o_skip_ci := %s; o_skip_so := %s; o_override_lib := %s; o_skip_magic := %s |}") % (
+            B(o["crc"]), B(o["chunked"]), o["chunksize"], gen_c17.H(o["comp"].encode()), B(o["custom"]), B(o["skipmi"]), B(o["skipstats"]), B(o["skiprsh"]), B(o["skiprch"]),
+            B(o["skipai"]), B(o["skipmdi"]), B(o["skipci"]), B(o["skipso"]), B(o["overridelib"]), B(o["skipmagic"]))
+        lines.append("Definition c%d := weq %s %s [%s] %s." % (i, ot, gen_c17.H(cm.lib_id()), "; ".join(gen_c17.call_term(x) for x in c["calls"]), gen_c17.H(data)))
+        names.append("c%d" % i)
+    lines.append("Definition M := Eval vm_compute in [%s]." % "; ".join(names))
+    lines.append("Print M.")
+    d = os.path.join(wd, "incoq")
+    os.makedirs(d, exist_ok=True)
+    open(os.path.join(d, "cases.v"), "w").write("\n".join(lines) + "\n")
+    p = cm.run(["timeout", "1200", "coqc", "-Q", os.path.join(cm.COQ, "theories"), "Mcap", "cases.v"], cwd=d, check=False)
+    out = p.stdout.decode(errors="replace")
+    nt = out.count("true")
+    if p.returncode != 0 or "false" in out or nt != len(sample):
+        rep.add_violation("correspondence", "in-Coq evaluation of %d sampled writer cases disagrees with the implementation's bytes (coqc rc=%s): %s" % (len(sample), p.returncode, out[-400:]),
+                          [l for c, _ in sample[:3] for l in cw.case_replay(c)], failing_input=False)
+    return len(sample)
+
+
 @prop("C05")
 def check_c05(rep, tier, seed, wd, replay):
     n = 300 if tier == "quick" else 6000
     cases = cw.gen_cases(seed * 1000 + 5, n, "c05_", legal_p=0.95)
     go, model, distinct, hist, nd = writer_corr(rep, cases, wd, ["new", "calls", "writes", "indexes"], {"C05"})
+    if tier == "thorough":
+        hist["in_coq_sample"] = incoq_writer_sample(rep, cases, go, wd)
     cov = summarize(rep, len(cases), len(distinct),
                     "random writer workloads (options x call sequences, boundary-biased); distinct = distinct (chunked, compression, crc, #chunks<=3, call kinds, flag vector); compared: NewWriter/call results, every destination Write (bytes and segmentation), index list lengths; oracle: independent spec decoder accepts the file, all pointers exact, content equals calls",
                     [cw.case_replay(c) for c in cases[:2]], {"input_distribution": hist, "disagreements": nd})
@@ -492,7 +546,7 @@ def check_c07(rep, tier, seed, wd, replay):
         except mcapspec.SpecError:
             continue
         emitinv = fi % 2
-        lo = {"validate": 1, "emitinvalid": emitinv, "cb": "full", "acrc": 1, "skipmagic": 1 if f["o"]["skipmagic"] else 0}
+        lo = {"validate": 1, "emitinvalid": emitinv, "cb": ("full", "fullrev")[(fi // 2) % 2], "acrc": 1, "skipmagic": 1 if f["o"]["skipmagic"] else 0}
         f["lo"] = lo
         cases.append({"id": "%s_orig" % f["id"], "file": data, "lopts": lo, "base": f})
         for k, ch in enumerate(d["chunks"]):
@@ -655,6 +709,7 @@ def decode_written(f):
 def check_c02(rep, tier, seed, wd, replay):
     nfiles = 150 if tier == "quick" else 3000
     files, crashed = cl.written_files(seed * 1000 + 2, nfiles, "c02f", wd, nmax=25, force={"skipmagic": False})
+    files = cl.corner_written_files("c02c_", wd) + files
     cases = []
     for f in files:
         d = decode_written(f)
@@ -920,6 +975,10 @@ def check_c04(rep, tier, seed, wd, replay):
         cases.append({"id": f["id"] + "_after_only", "file": f["file"], "ropts": ["after:%d" % t0], "ops": [["messages"]], "base": f, "win": (t0, None), "topics": None, "order": "file"})
         cases.append({"id": f["id"] + "_before_only", "file": f["file"], "ropts": ["before:%d" % t0], "ops": [["messages"]], "base": f, "win": (0, t0), "topics": None, "order": "file"})
         cases.append({"id": f["id"] + "_afternanos_only", "file": f["file"], "ropts": ["afternanos:%d" % t0], "ops": [["messages"]], "base": f, "win": (t0, None), "topics": None, "order": "file"})
+        if len(cases) < 400 and d["messages"]:
+            # known finding F4d: the deprecated int64 spelling cannot express the empty window [0,0)
+            cases.append({"id": f["id"] + "_before_zero", "file": f["file"], "ropts": ["after:0", "before:0"], "ops": [["messages"]], "base": f, "win": (0, 0), "topics": None,
+                          "order": "file", "_key": "F4d-before-zero"})
     go, model, nd = read_corr(rep, cases, wd, "c04")
     st = {"window_reads": 0, "spelling_groups": 0, "empty_results": 0, "nonempty_results": 0}
     for c in cases:
@@ -1219,10 +1278,11 @@ def expected_lex_content(f, lib):
 def check_c01(rep, tier, seed, wd, replay):
     nfiles = 200 if tier == "quick" else 5000
     files, crashed = cl.written_files(seed * 1000 + 1, nfiles, "c01f", wd, nmax=25, small=False)
+    files = cl.corner_written_files("c01c_", wd) + files
     lib = cm.lib_id()
     lcases, rcases = [], []
     for i, f in enumerate(files):
-        lo = {"validate": i % 2, "cb": "full", "acrc": 1, "skipmagic": 1 if f["o"]["skipmagic"] else 0, "reuse": (i // 2) % 2}
+        lo = {"validate": i % 2, "cb": ("full", "fullrev")[(i // 8) % 2], "acrc": 1, "skipmagic": 1 if f["o"]["skipmagic"] else 0, "reuse": (i // 2) % 2}
         lcases.append({"id": f["id"] + "_lex", "file": f["file"], "lopts": lo, "src": {"seek": (i // 4) % 2}, "base": f})
         if not f["o"]["skipmagic"]:
             rcases.append({"id": f["id"] + "_scan", "file": f["file"], "ropts": ["index:0"], "ops": [["messages"], ["messages", "into"]], "base": f})
@@ -1308,7 +1368,8 @@ def decorate(r, L):
     if r.random() < 0.5:
         items.append(unk())
     D = dict(L, items=items)
-    D["pad"] = r.choice([b"", b"\x01\xff\xff", b"\x00", bytes(r.randrange(256) for _ in range(7))])
+    D["pad"] = r.choice([b"", b"\x01\xff\xff", b"\x00", bytes(r.randrange(256) for _ in range(7)), bytes(r.randrange(256) for _ in range(10)),
+                         bytes(r.randrange(256) for _ in range(r.randint(11, 40))), b"\x01\x00" + b"\x00" * 8 + b"\x02\x00" + b"\xff" * 8])
     D["summary_unknown"] = [(r.choice([0x10, 0x90, 0xfe]), bytes(r.randrange(256) for _ in range(r.randint(0, 12)))) for _ in range(r.randint(0, 3))]
     return D
 
@@ -1547,7 +1608,10 @@ def gen_type_graph(r, depth):
     order = []
 
     def mk(level, pkg):
-        name = "%s/T%d" % (pkg, len(order))
+        # short names are reused across packages (my_nav/Pose vs geo/Pose): only the full name is unique
+        name = "%s/%s" % (pkg, r.choice(["Pose", "Point", "Item", "T%d" % len(order)]))
+        if name in types or name in order:
+            name = "%s/T%d" % (pkg, len(order))
         order.append(name)
         fields = []
         for i in range(r.randint(0, 5)):
@@ -2394,3 +2458,48 @@ def check_c16(rep, tier, seed, wd, replay):
                     "Go->Python: workloads (valid UTF-8) written by the Go writer in random uncompressed configurations, read by python/mcap NonSeekingReader (always) and SeekingReader (when the summary carries all indexes), CRC validation on: header, messages with channel/schema, attachments, metadata, statistics, log-time order and reverse; Python->Go: workloads written by python/mcap Writer across its options (chunk size, index types, repeated channels/schemas, chunking, statistics, summary offsets, CRCs), decoded by the independent spec decoder and read by the Go lexer, scan, indexed and log-time readers (also compared with the Coq models)",
                     [cw.case_replay({"id": f["id"], "o": f["o"], "calls": f["calls"]})[:6] for f in files[:1]], dict(st, disagreements=nd1 + nd2))
     return cov, ["the Python implementation is not modelled: it is tied instance-wise through the verified pivot (Go writer/reader models)"]
+
+
+# ------------------------------------------------------------------ replay
+def replay_file(path):
+    """Re-execute the cases of a replay file on the current tree: implementation and model side by side."""
+    cm.build_coq()
+    cm.build_model()
+    ok, msg = cm.build_harness()
+    if not ok:
+        print("harness does not build:", msg[-1000:])
+        return 2
+    txt = open(path).read()
+    cases = []
+    cur = None
+    for l in txt.splitlines():
+        if l.startswith("#"):
+            print(l)
+            continue
+        if l.startswith("case "):
+            cur = [l[5:].strip(), []]
+        elif l == "end" and cur:
+            cases.append(cur)
+            cur = None
+        elif cur is not None:
+            cur[1].append(l)
+    wd = cm.workdir("replay")
+    lib = cm.lib_id()
+    try:
+        for cid, lines in cases:
+            heads = set(x.split(" ")[0] for x in lines)
+            mode = ("lex" if "lopts" in heads else "read" if "ropts" in heads else "parse" if "parse" in heads else "ros1msg" if "msgdef" in heads
+                    else "bag" if "bag" in heads else "db3" if "db" in heads else "write")
+            if mode in ("write", "bag") and not any(x.startswith("lib ") for x in lines):
+                lines = lines[:1] + ["lib " + cm.hx(lib)] + lines[1:]
+            print("=== case %s (mode %s)" % (cid, mode))
+            for exe, name in ((os.path.join(cm.BUILD, "impl"), "implementation"), (os.path.join(cm.BUILD, "model"), "model")):
+                raw, crashed = cm.run_sharded(exe, mode, [(cid, lines)], wd, "rp_" + name, nshards=1, timeout=120)
+                print("--- %s" % name)
+                for l in raw.get(cid, ["<no output>"]):
+                    print("   " + (l if len(l) < 400 else l[:400] + "..."))
+                for cmd, rc, err in crashed:
+                    print("   process exited %s: %s" % (rc, err[-300:]))
+    finally:
+        shutil.rmtree(wd, ignore_errors=True)
+    return 0
